@@ -236,6 +236,7 @@ impl World for ExportFaults {
                 ]),
                 pre_ops: vec![Op::Insert(1, 3)],
                 resume: false,
+                optimum: 0.0,
             };
         }
         let format = g.pick(&["json", "cbor", "ron"]).to_string();
